@@ -70,7 +70,10 @@ import (
 //
 // Start-up delay: AggregationLoop first sleeps until genesis time + B (height 0). The genesis time is set to
 // (bubble start - B), so the delay is exactly 0 and the loop's two timers (both NewTimer(0)) fire at virtual time 0;
-// the oracle therefore expects the first start within the bounds above counted from 0.
+// the oracle therefore expects the first start within the bounds above counted from 0. That holds for the plain grid
+// and the duration histories; the START HISTORIES part (start_test.go) makes the delay a dimension — last stored
+// block / genesis time at chosen offsets from the loop start, restarts of the loop in the middle of a run — and
+// extends min-spacing to the first production of every loop.
 
 type cfgT struct{ Block, Idle time.Duration }
 
@@ -95,6 +98,9 @@ type Point struct {
 	Seq []int64 `json:"first_productions_ns,omitempty"`
 	// QDiv: notification instants are multiples of block interval / QDiv (0 = 4)
 	QDiv int `json:"notification_quantum_div,omitempty"`
+	// Start: START HISTORIES part (start_test.go): how the loop is started relative to the last stored block / the
+	// genesis time, and an optional restart. nil on the other parts (genesis time = loop start minus one block interval).
+	Start *Start `json:"start,omitempty"`
 }
 
 // dur is the duration of the i-th production of the run.
@@ -131,6 +137,9 @@ func (p Point) notifRange() time.Duration {
 
 // slots is the number of notification slots of the point.
 func (p Point) slots() int {
+	if p.Start != nil {
+		return int(p.startRange()/p.quantum())*2 + 1
+	}
 	if len(p.Seq) == 0 {
 		return nslots(cfgs[p.Cfg])
 	}
@@ -166,6 +175,10 @@ func (p Point) instant(slot int) time.Duration {
 	}
 	k := (slot + 1) / 2
 	at := time.Duration(k) * p.quantum()
+	if p.Start != nil {
+		// the grid is shifted so that the instant at which the first loop becomes ready is a grid instant
+		at += p.ready1() % p.quantum()
+	}
 	if slot%2 == 1 {
 		return at - p.delta()
 	}
@@ -176,6 +189,13 @@ func (p Point) instant(slot int) time.Duration {
 // one further idle gap could be seen.
 func (p Point) horizon() time.Duration {
 	c := cfgs[p.Cfg]
+	if p.Start != nil {
+		w := c.Block
+		if p.Lazy {
+			w = c.Idle
+		}
+		return p.startRange() + 2*p.maxd() + 2*c.Block + w + 10*time.Millisecond
+	}
 	if len(p.Seq) > 0 {
 		return p.notifRange() + 2*p.maxd() + 2*c.Block + c.Idle + 10*time.Millisecond
 	}
@@ -190,10 +210,21 @@ type result struct {
 	startSeq []int
 	notifSeq []int
 	err      string // machinery problem
+	// START HISTORIES part only
+	loops   []loopRec
+	stopAt  time.Duration // instant the first loop was cancelled (-1: it was not)
+	stopSeq int
+	prodErr string // the real production function returned an error (the loop ends with it)
 }
 
 func runPoint(t *testing.T, p Point) (res result) {
-	synctest.Test(t, func(t *testing.T) { res = bubble(p) })
+	synctest.Test(t, func(t *testing.T) {
+		if p.Start != nil {
+			res = bubbleStart(p)
+		} else {
+			res = bubble(p)
+		}
+	})
 	return
 }
 
@@ -313,8 +344,12 @@ func (p Point) describe(res result) string {
 		}
 		takes = fmt.Sprintf("the first %d productions take [%s], every later one %v", len(ds), fmtTimes(ds), p.d())
 	}
-	return fmt.Sprintf("%s mode, block interval %v, idle interval %v, %s, notifications (%s) at [%s] ⇒ production starts [%s] (observed until %v)",
+	s := fmt.Sprintf("%s mode, block interval %v, idle interval %v, %s, notifications (%s) at [%s] ⇒ production starts [%s] (observed until %v)",
 		mode, p.block(), p.idle(), takes, via, fmtTimes(res.notifs), fmtTimes(res.starts), p.horizon())
+	if p.Start != nil {
+		s = p.describeStart(res) + "\n   " + s
+	}
+	return s
 }
 
 // inflightEnd: end of the production that is in flight when notification k is delivered (ok=false: none). A production
@@ -329,11 +364,10 @@ func inflightEnd(res result, p Point, k int) (time.Duration, bool) {
 	return 0, false
 }
 
-func oracle(p Point, res result, baseline func() []time.Duration) (fails []fail, unchecked int) {
-	B, I, T := p.block(), p.idle(), p.horizon()
+// historyTags: features of the run (not of a failure) that every violation found in it carries.
+func historyTags(p Point, res result) (tags []string) {
+	B, I := p.block(), p.idle()
 	d := p.maxd() // the constant duration on the plain grid
-	S := res.starts
-	var tags []string
 	if p.Lazy {
 		tags = append(tags, "lazy-mode")
 	} else {
@@ -383,6 +417,13 @@ func oracle(p Point, res result, baseline func() []time.Duration) (fails []fail,
 	if I == B {
 		tags = append(tags, "idle-equals-block-interval")
 	}
+	return
+}
+
+func oracle(p Point, res result, baseline func() []time.Duration) (fails []fail, unchecked int) {
+	B, I, T := p.block(), p.idle(), p.horizon()
+	S := res.starts
+	tags := historyTags(p, res)
 	add := func(clause, format string, args ...any) {
 		for _, f := range fails {
 			if f.clause == clause {
@@ -498,6 +539,7 @@ type grid struct {
 	tieReps        int
 	durations      func(B time.Duration) []time.Duration
 	seq            []seqPass
+	start          []startPass
 }
 
 // frac is a production duration as a fraction of the block interval.
@@ -656,10 +698,23 @@ func TestCheck(t *testing.T) {
 	} else {
 		g.seq = []seqPass{{L: 3, tails: []frac{{0, 1}}, minNotif: 0, maxNotif: 1, qdiv: 4}}
 	}
+	// START HISTORIES (start_test.go): the loop's start relative to the last stored block / the genesis time, restarts
+	blockAnchors := []frac{{-longAgo, 1}, {-3, 2}, {-1, 1}, {-7, 10}, {-3, 10}, {0, 1}}
+	genesisAnchors := []frac{{-1, 1}, {-3, 10}, {0, 1}, {1, 2}, {2, 1}}
+	if r.Thorough() {
+		g.start = []startPass{{durations: []frac{{0, 1}, {1, 2}, {1, 1}, {3, 2}}, blockAnchors: blockAnchors, genesisAnchors: genesisAnchors,
+			stopAfter: []int{1, 2, 3}, stopAfterNewM: []int{1, 2, 3}, restartOffs: []frac{{0, 1}, {3, 10}, {1, 1}, {2, 1}}, maxNotif: 1, allIdleEps: true, qdiv: 4, tieReps: 2}}
+	} else {
+		g.start = []startPass{{durations: []frac{{0, 1}, {1, 2}, {3, 2}}, blockAnchors: blockAnchors, genesisAnchors: genesisAnchors,
+			stopAfter: []int{1, 2}, stopAfterNewM: []int{1}, restartOffs: []frac{{0, 1}, {3, 10}, {1, 1}}, maxNotif: 1, qdiv: 2, tieReps: 1}}
+	}
 	r.Assume = []string{
 		"virtual time (testing/synctest); a production takes exactly the chosen virtual duration (one duration d per run on the plain grid; in the duration-history part the i-th production of the run takes the i-th duration of the word and every later one the tail duration); everything else the loop does takes no virtual time",
 		"normal mode after an overrun: 'produced once per block interval' is read as: the interval that follows a production shorter than the block interval is exactly one block interval whatever happened before it, and no two productions ever start less than one block interval apart (no catch-up burst); after a production of d >= one block interval the next one starts between d and d + one block interval later",
-		"genesis time = start of the run minus one block interval, so the loop's start-up delay is 0",
+		"plain grid and duration histories: genesis time = start of the run minus one block interval on an empty store, so the loop's start-up delay is 0 and the loop is started once. START HISTORIES part: the start-up delay is a dimension (see bounds.start_histories); there the production function is the real publishBlock wrapped by the recorder, the sequencing double stamps each batch with the current virtual time (as sequencers/single does), so block time = instant the production starts, and the height / State.LastBlockTime that a (re)started loop reads are the ones the real code stored",
+		"'never faster than one per block interval' is read across loop starts: the first production of a (re)started loop is the successor of the block already in the store, and the first block of a chain is the successor of the genesis state, whose LastBlockTime the code itself sets to the genesis time; so it may not start earlier than (stored last block time | genesis time) + one block interval. The liveness clauses of a loop are counted from the instant it is started or that earliest allowed instant, whichever is later; no obligation is derived from a notification delivered while no loop runs or whose deadline lies at or after the cancellation of the first loop",
+		"restart = cancel the loop's context at the instant its k-th production returns, wait until AggregationLoop has returned, start AggregationLoop again on the same Manager and store (Manager fields such as txsAvailable and a token in the notification channel survive, as does lastState), or — restart_with_new_manager — on a new block.Manager built over the persisted store image, which is what a restart of the process does (in-memory fields are gone, lastState is read back from the store)",
+		"at the start of a lazy loop both timers are armed with 0 (and a notification may be pending): which ready case the first select takes is the runtime's pick; every resolution observed is checked",
 		"notifications at grid instants ±1 ns (±100 ns when the idle interval is off by 1 ns): a notification never coincides with a timer of the loop, both orders are separate grid points",
 		"when both timers of the lazy loop (or a timer and the notification channel) are ready at the same virtual instant, Go's select picks pseudo-randomly; the variants with idle interval ±1 ns enumerate both orders of idle timer vs block timer deterministically; the remaining ties (both timers re-armed to 'end of production + 1 ms' when a production outlasts BOTH intervals, i.e. block:idle 1:1 with d >= 1 block interval) are resolved by the runtime and every resolution observed is checked",
 		"the deadline of a notification that arrives during a production is counted from the end of that production; the bounds for productions that outlast an interval are the weakest ones (next start within one block interval after the long production ends)",
@@ -669,8 +724,11 @@ func TestCheck(t *testing.T) {
 	baseCache := map[string][]time.Duration{}
 	baselineFor := func(p Point) func() []time.Duration {
 		return func() []time.Duration {
-			q := Point{Cfg: p.Cfg, D: p.D, Lazy: false, Seq: p.Seq, QDiv: p.QDiv}
+			q := Point{Cfg: p.Cfg, D: p.D, Lazy: false, Seq: p.Seq, QDiv: p.QDiv, Start: p.Start}
 			k := fmt.Sprintf("%d/%d/%v", q.Cfg, q.D, q.Seq)
+			if p.Start != nil {
+				k += fmt.Sprintf("/%+v", *p.Start)
+			}
 			baseMu.Lock()
 			b, ok := baseCache[k]
 			baseMu.Unlock()
@@ -686,13 +744,52 @@ func TestCheck(t *testing.T) {
 	}
 
 	var unchecked, obligations, duringProd, seqEvals, plainSamples, seqSamples atomic.Int64
+	var startEvals, startExempt, startWaits, startRestarts, startRestartWaits, startNotifInWait, startSamples atomic.Int64
 	evalOne := func(p Point, verbose bool) {
 		res := runPoint(t, p)
 		if res.err != "" {
 			r.EngineError(res.err + " — " + p.describe(res))
 			return
 		}
-		fails, un := oracle(p, res, baselineFor(p))
+		var fails []fail
+		var un int
+		if p.Start != nil {
+			var ex int
+			fails, un, ex = oracleStart(p, res, baselineFor(p), res.prodErr != "")
+			if res.prodErr != "" {
+				if len(fails) == 0 {
+					r.EngineError(res.prodErr + " — " + p.describe(res))
+					return
+				}
+				for i := range fails {
+					fails[i].msg += "\n   (the run ended early: " + res.prodErr + ")"
+				}
+			}
+			startEvals.Add(1)
+			startExempt.Add(int64(ex))
+			for j, l := range res.loops {
+				ready := max(l.at, l.anchor+p.block())
+				if ready > l.at {
+					startWaits.Add(1)
+					if j == 1 {
+						startRestartWaits.Add(1)
+					}
+					for _, a := range res.notifs {
+						if a > l.at && a < ready {
+							startNotifInWait.Add(1)
+						}
+					}
+				}
+				if j == 1 {
+					startRestarts.Add(1)
+				}
+			}
+			if len(fails) == 0 && p.Start.StopAfter > 0 && len(res.loops) != 2 && res.prodErr == "" {
+				r.EngineError("a requested restart was not played out within the observation window — " + p.describe(res))
+			}
+		} else {
+			fails, un = oracle(p, res, baselineFor(p))
+		}
 		unchecked.Add(int64(un))
 		obligations.Add(int64(len(res.notifs)))
 		for k := range res.notifs {
@@ -707,6 +804,12 @@ func TestCheck(t *testing.T) {
 			cost := 100*len(p.Slots) + 10*int(4*p.d()/p.block()) + 3*p.Cfg + int(p.EpsNs*p.EpsNs) + map[bool]int{true: 1}[p.Reaper]
 			for i := range p.Seq {
 				cost += 10 * int(4*p.dur(i)/p.block())
+			}
+			if st := p.Start; st != nil {
+				cost += 5 + 40*st.StopAfter + int(4*st.restart()/p.block())
+				if a := st.anchor(); a > -longAgo*p.block() {
+					cost += 2 + int(4*(a+2*p.block())/p.block())
+				}
 			}
 			r.Report(vf.Violation{Clause: f.clause, Tags: f.tags, Msg: f.msg, Cost: cost, History: p})
 		}
@@ -725,6 +828,14 @@ func TestCheck(t *testing.T) {
 			sig = fmt.Sprintf("seq:%016x", h.Sum64())
 			seqEvals.Add(1)
 		}
+		if st := p.Start; st != nil {
+			h := fnv.New64a()
+			fmt.Fprintf(h, "%+v %s", *st, sig)
+			sig = fmt.Sprintf("start:%016x", h.Sum64())
+			if len(p.Slots) == 1 && p.Lazy && p.Cfg == 1 && p.D > 0 && st.StopAfter == 1 && st.AnchorNs == -int64(3*p.block()/10) && st.RestartNs > 0 && p.Slots[0]%9 == 4 && startSamples.Add(1) <= 3 {
+				r.Sample(map[string]any{"point": p, "run": p.describe(res)})
+			}
+		}
 		if len(fails) > 0 {
 			sig = "fail:" + fails[0].clause + " " + sig
 		}
@@ -741,7 +852,7 @@ func TestCheck(t *testing.T) {
 		var p Point
 		if _, err := r.LoadReplay(&p); err != nil {
 			r.EngineError(err.Error())
-		} else if p.Cfg < 0 || p.Cfg >= len(cfgs) {
+		} else if p.Cfg < 0 || p.Cfg >= len(cfgs) || (p.Start != nil && !p.Start.EmptyStore && p.Start.AnchorNs > 0) {
 			r.EngineError("replay: bad configuration index")
 		} else {
 			evalOne(p, true)
@@ -793,6 +904,21 @@ func TestCheck(t *testing.T) {
 		seqWords[fmt.Sprint(p.Cfg, p.Seq, p.D)] = true
 		seqPerCfg[fmt.Sprintf("%v:%v", p.block(), cfgs[p.Cfg].Idle)]++
 	})
+	startTotal, startLazy, startWithRestart := 0, 0, 0
+	startSpecs := map[string]bool{}
+	startPerCfg := map[string]int{}
+	g.enumerateStart(func(p Point) {
+		deal(p)
+		startTotal++
+		if p.Lazy {
+			startLazy++
+		}
+		if p.Start.StopAfter > 0 {
+			startWithRestart++
+		}
+		startSpecs[fmt.Sprintf("%+v", *p.Start)] = true
+		startPerCfg[fmt.Sprintf("%v:%v", p.block(), cfgs[p.Cfg].Idle)]++
+	})
 	close(work)
 	wg.Wait()
 
@@ -803,6 +929,10 @@ func TestCheck(t *testing.T) {
 	for _, sp := range g.seq {
 		seqPasses = append(seqPasses, sp.describe())
 	}
+	var startPasses []map[string]any
+	for _, sp := range g.start {
+		startPasses = append(startPasses, sp.describe())
+	}
 	ks := make([]string, 0, len(perCfg))
 	for k := range perCfg {
 		ks = append(ks, k)
@@ -810,7 +940,7 @@ func TestCheck(t *testing.T) {
 	sort.Strings(ks)
 	r.Finish(vf.Coverage{
 		Evaluations: evals.Load(), DistinctNontrivial: int64(r.DistinctOutcomes()), Transitions: obligations.Load(),
-		Rule:       "every grid point is one execution of the real AggregationLoop under virtual time: block:idle interval × production duration × {lazy, normal} × (lazy only) idle interval {exact, +1 ns, -1 ns} × every set of at most max_notifications instants from {k·¼ block interval ± 1 ns, k·¼ block interval <= two idle intervals}, plus (lazy) the same sets up to max_notifications_via_reaper delivered by the real Reaper.SubmitTxs. DURATION HISTORIES (production durations that vary within one run): every word of length duration_sequences.length over duration_sequences.alphabet gives the durations of the first productions of a run, every later production takes the tail duration; × block:idle × {lazy (idle exact, +1 ns, -1 ns), normal} × every set of notification instants of the stated sizes from {k·quantum ± 1 ns <= the instant by which all sequenced productions have run at one per interval (or back to back when longer) plus two further intervals}; the oracle bounds of a gap are those of the production that precedes it (exactly one block interval in normal mode after a production shorter than the interval — in particular after an EARLIER overrun —, never less than one block interval in either mode); distinct = distinct (mode, configuration, production start times) signatures; transitions = notifications delivered",
+		Rule:       "every grid point is one execution of the real AggregationLoop under virtual time: block:idle interval × production duration × {lazy, normal} × (lazy only) idle interval {exact, +1 ns, -1 ns} × every set of at most max_notifications instants from {k·¼ block interval ± 1 ns, k·¼ block interval <= two idle intervals}, plus (lazy) the same sets up to max_notifications_via_reaper delivered by the real Reaper.SubmitTxs. DURATION HISTORIES (production durations that vary within one run): every word of length duration_sequences.length over duration_sequences.alphabet gives the durations of the first productions of a run, every later production takes the tail duration; × block:idle × {lazy (idle exact, +1 ns, -1 ns), normal} × every set of notification instants of the stated sizes from {k·quantum ± 1 ns <= the instant by which all sequenced productions have run at one per interval (or back to back when longer) plus two further intervals}; the oracle bounds of a gap are those of the production that precedes it (exactly one block interval in normal mode after a production shorter than the interval — in particular after an EARLIER overrun —, never less than one block interval in either mode). START HISTORIES (how the loop is started, and restarted): the store holds one block produced by the real publishBlock whose time is the loop start plus one of start_histories.stored_block_time_minus_loop_start, or is empty with the genesis time at loop start plus one of start_histories.genesis_time_minus_loop_start; × no restart, or the loop is cancelled at the instant its k-th production ends and AggregationLoop is started again on the same Manager/store after each listed offset; × block:idle × production duration × {lazy, normal} × every set of at most start_histories.max_notifications instants from the shifted k·quantum ± 1 ns grid that spans the initial wait, the first loop, the downtime, the second loop's wait and two further intervals. There the recorder wraps the REAL publishBlock (block time = production start, stored height and State.LastBlockTime written by the real code) and the oracle adds to min-spacing: consecutive production starts across the restart are at least one block interval apart and the first production of every loop starts no earlier than (stored last block time | genesis time) + one block interval; the other clauses are applied per loop, counted from the instant the loop is ready; distinct = distinct (mode, configuration, production start times) signatures; transitions = notifications delivered",
 		Exhaustive: true,
 		Bounds: map[string]any{
 			"block:idle":                        []string{"1s:1s", "1s:2s", "1s:3s", "2s:3s"},
@@ -833,6 +963,17 @@ func TestCheck(t *testing.T) {
 				"notification_range_in_this_part":   "sum over the sequenced productions of max(W, duration) + 2W, W = idle interval (lazy) or block interval (normal)",
 				"repetitions_of_runtime_tie_points": g.tieReps,
 			},
+			"start_histories": map[string]any{
+				"passes":                             startPasses,
+				"distinct_(anchor_ns,restart)_specs": len(startSpecs),
+				"grid_points_total":                  startTotal,
+				"grid_points_lazy_mode":              startLazy,
+				"grid_points_normal_mode":            startTotal - startLazy,
+				"grid_points_with_a_restart":         startWithRestart,
+				"grid_points_per_block:idle":         startPerCfg,
+				"production_function":                "real publishBlock wrapped by the recorder",
+				"notification_delivery":              "Manager.NotifyNewTransactions only",
+			},
 		},
 		Extra: map[string]any{"counts_of_the_reporting_shard": map[string]any{
 			"note":                                "measured by the process that wrote this record (shard 0 of process_shards, i.e. every 16th grid point, when sharded)",
@@ -840,6 +981,14 @@ func TestCheck(t *testing.T) {
 			"notifications_delivered":             obligations.Load(),
 			"notifications_during_a_production":   duringProd.Load(),
 			"executions_with_a_duration_sequence": seqEvals.Load(),
+			"start_histories": map[string]any{
+				"executions":                                        startEvals.Load(),
+				"loop_starts_that_had_to_wait":                      startWaits.Load(),
+				"restarts_executed":                                 startRestarts.Load(),
+				"restarts_that_had_to_wait":                         startRestartWaits.Load(),
+				"notifications_delivered_during_a_start_wait":       startNotifInWait.Load(),
+				"notifications_exempt_(no_loop_running_or_stopped)": startExempt.Load(),
+			},
 		}},
 	})
 }
